@@ -16,6 +16,7 @@ import (
 	"regexp"
 	"strings"
 	"sync"
+	"syscall"
 	"time"
 )
 
@@ -173,8 +174,8 @@ func describeCfg(c e2eCfg) string {
 	if c.upload {
 		dir = "upload"
 	}
-	return fmt.Sprintf("%s binary=%v escape=%v dir=%v overwrite=%v compress=%q bufsize=%q proto=%d", dir, c.binary, c.escape,
-		c.directory, c.overwrite, c.compress, c.bufsize, c.proto)
+	return fmt.Sprintf("%s binary=%v escape=%v dir=%v overwrite=%v compress=%q bufsize=%q proto=%d relays=%d tunnel=%v", dir, c.binary, c.escape,
+		c.directory, c.overwrite, c.compress, c.bufsize, c.proto, c.relays, c.tunnel)
 }
 
 func genFidelity(c *ctx) {
@@ -183,6 +184,7 @@ func genFidelity(c *ctx) {
 	n := c.pick(96, 1500)
 	cases := make([]*fidCase, n)
 	protos := []int{-1, 0, 2, 3, 4, 9}
+	spinning := 0
 	for i := range cases {
 		fc := &fidCase{seed: c.rng.Int63(), shape: c.rng.Intn(3), big: c.rng.Intn(4) == 0}
 		fc.cfg = e2eCfg{
@@ -196,6 +198,17 @@ func genFidelity(c *ctx) {
 			timeout:   10,
 			quiet:     c.rng.Intn(2) == 0,
 			deadline:  40 * time.Second,
+			relays:    []int{0, 0, 1, 2}[c.rng.Intn(4)],
+			tunnel:    c.rng.Intn(4) == 0,
+		}
+		if fc.cfg.relays > 0 && fc.cfg.tunnel {
+			// a relay's tunnel pumps busy-loop for ever once their connection is closed
+			// (relay.go tunnelRelay.wrapInput/wrapOutput only leave on io.EOF; observed: 2 cores
+			// per finished tunnel transfer) - keep only a couple of these per run
+			spinning++
+			if spinning > 2 {
+				fc.cfg.tunnel = false
+			}
 		}
 		if fc.shape == 1 {
 			fc.cfg.directory = true
@@ -280,6 +293,8 @@ func genFidelity(c *ctx) {
 		c.count(fmt.Sprintf("upload:%v", fc.cfg.upload))
 		c.count(fmt.Sprintf("binary:%v", fc.cfg.binary))
 		c.count(fmt.Sprintf("shape:%d", fc.shape))
+		c.count(fmt.Sprintf("relays:%d", fc.cfg.relays))
+		c.count(fmt.Sprintf("tunnel:%v", fc.cfg.tunnel))
 		if len(fc.diffs) > 0 {
 			key := "fidelity:" + strings.SplitN(fc.diffs[0], ":", 2)[0]
 			c.violate(key, "end-to-end transfer over a fault-free transport did not reproduce the source",
@@ -386,4 +401,29 @@ func genFds(c *ctx) {
 		}
 		os.RemoveAll(root)
 	}
+}
+
+func init() { groups["probe-spin"] = probeSpin }
+
+// probe: after a tunnel transfer through a relay, is a relay goroutine busy-looping?
+func probeSpin(c *ctx) {
+	work, _ := os.MkdirTemp("", "e2e_spin_")
+	defer os.RemoveAll(work)
+	rng := rand.New(rand.NewSource(1))
+	tops := makeSourceTree(rng, work, 0, false)
+	dest := filepath.Join(work, "dest")
+	os.MkdirAll(dest, 0755)
+	res := runTransfer(e2eCfg{upload: true, relays: 1, tunnel: true, timeout: 5, proto: -1, quiet: true}, tops, dest)
+	time.Sleep(2 * time.Second)
+	var ru1, ru2 syscall.Rusage
+	syscall.Getrusage(syscall.RUSAGE_SELF, &ru1)
+	time.Sleep(time.Second)
+	syscall.Getrusage(syscall.RUSAGE_SELF, &ru2)
+	cpu := float64(ru2.Utime.Nano()+ru2.Stime.Nano()-ru1.Utime.Nano()-ru1.Stime.Nano()) / 1e9
+	gs := goroutinesOf("tunnelRelay")
+	c.note(true, fmt.Sprintf("spin probe: transfer ok=%v; cpu used in 1 idle second: %.2fs; tunnelRelay goroutines: %d", res.clientDone, cpu, len(gs)))
+	for _, g := range gs {
+		fmt.Fprintln(os.Stderr, tailStr(g, 600))
+	}
+	fmt.Fprintf(os.Stderr, "cpu in idle second: %.2f\n", cpu)
 }
